@@ -257,7 +257,7 @@ def run_case(pack, role, lvl, payloads, mode="each"):
                 h = NW.unpack_header(raw)
                 for i in idx_list:
                     hi = NW.unpack_header(payloads[i])
-                    if h is not None and hi is not None and (h[1], h[2]) == (hi[1], hi[2]):
+                    if h is not None and hi is not None and (h[1] & 0xFFF, h[2]) == (hi[1] & 0xFFF, hi[2]):  # pack() keeps 12 bits
                         return classes[i][1]
                 return cls
 
